@@ -255,5 +255,10 @@ package closest
 //@     invariant [c12.slots] forall(j, 0, i, QResultsArray[envat(cResults, j).qidx] == envat(cResults, j))
 //@   before call:writeClosest#1: assert [c12.slots] forall(k, 0, nQ, QResultsArray[k] == envat(cResults, resultOf(k)) && QResultsArray[k].qidx == k)
 //@   before call:writeClosest#1: assert [c06.writer.args] arg(1) == measure && arg(2) == out
-//@   ensures [c18.error.returned] implies(len(recvd(cErr)) > 0, result == recvd(cErr)[0] && result != nil)
-//@   ensures [c18.nil.means.clean] implies(result == nil, len(recvd(cErr)) == 0)
+//@   ghost gErrSeen bool = false
+//@   before return#2: do gErrSeen = true
+//@   before return#3: do gErrSeen = true
+//@   before return#2: assert [c18.error.first] len(recvd(cErr)) == 1 && err == recvd(cErr)[0]
+//@   before return#3: assert [c18.error.first] len(recvd(cErr)) == 1 && err == recvd(cErr)[0]
+//@   before return#5: assert [c18.nil.means.clean] len(recvd(cErr)) == 0 && len(recvd(cResults)) == nQ
+//@   ensures [c18.error.returned] implies(gErrSeen, result != nil)
